@@ -13,7 +13,9 @@ use passkey_types::ctap2::{get_assertion, Aaguid};
 use serde::{Deserialize, Serialize};
 use serde_json::{json, Value};
 
-pub const STARTS: [Option<u32>; 7] = [Some(0), Some(1), Some(0x7FFF_FFFF), Some(0x8000_0000), Some(0xFFFF_FFFE), Some(0xFFFF_FFFF), None];
+/// boundary values, and two whose four bytes all differ / whose low byte is about to carry (the
+/// counter is also read back from the encoded bytes)
+pub const STARTS: [Option<u32>; 9] = [Some(0), Some(1), Some(0xFF), Some(0x0102_03FE), Some(0x7FFF_FFFF), Some(0x8000_0000), Some(0xFFFF_FFFE), Some(0xFFFF_FFFF), None];
 const RP: &str = "example.com";
 
 #[derive(Clone, Debug, PartialEq, Serialize, Deserialize)]
@@ -348,7 +350,7 @@ pub fn run(ctx: &Ctx) -> Result<Run, String> {
     }
     let mut run = Run::from_stats(
         "model_checking",
-        "level-synchronous explicit-state BFS over the real get_assertion/make_credential: 49 start vectors (two credentials with each of 7 start counters incl. 0, 2^31-1, 2^31, 2^32-2, 2^32-1 and none, one counter-less credential), actions assert(cred i, PRF on/off, with consent / silent: up=uv=false and nothing reported) and register(counter on/off), states deduplicated per start vector on the counter vector; run on the contract store and (one level less deep) on Arc<Mutex<MemoryStore>>; every transition is a distinct non-trivial case (a real ceremony on a rebuilt store)",
+        "level-synchronous explicit-state BFS over the real get_assertion/make_credential: 81 start vectors (two credentials with each of 9 start counters incl. 0, 255, 0x010203FE, 2^31-1, 2^31, 2^32-2, 2^32-1 and none, one counter-less credential), actions assert(cred i, PRF on/off, with consent / silent: up=uv=false and nothing reported) and register(counter on/off), states deduplicated per start vector on the counter vector; run on the contract store and (one level less deep) on Arc<Mutex<MemoryStore>>; every transition is a distinct non-trivial case (a real ceremony on a rebuilt store)",
         true,
         out.stats,
     );
